@@ -561,6 +561,19 @@ type CountResult struct {
 const inf = 1 << 30
 
 func CountPaths(f *ssa.Function, count func(in ssa.Instruction) (lo, hi int), skipEdge func(from, to *ssa.BasicBlock) bool, exitOK func(ret ssa.Instruction) bool) CountResult {
+	return CountPathsOpt(f, CountOpts{Count: count, SkipEdge: skipEdge, ExitOK: exitOK})
+}
+
+type CountOpts struct {
+	Start    *ssa.BasicBlock // default: entry
+	Count    func(in ssa.Instruction) (lo, hi int)
+	SkipEdge func(from, to *ssa.BasicBlock) bool // edge absent
+	ExitEdge func(from, to *ssa.BasicBlock) bool // edge ends the path (counts as an exit), not followed
+	ExitOK   func(ret ssa.Instruction) bool      // returns not considered
+	NoReturn bool                                // returns are not exits (only ExitEdge)
+}
+
+func CountPathsOpt(f *ssa.Function, o CountOpts) CountResult {
 	type st struct {
 		lo, hi int
 		reach  bool
@@ -570,29 +583,36 @@ func CountPaths(f *ssa.Function, count func(in ssa.Instruction) (lo, hi int), sk
 	if len(f.Blocks) == 0 {
 		return CountResult{}
 	}
+	start := o.Start
+	if start == nil {
+		start = f.Blocks[0]
+	}
 	res := CountResult{Min: inf, Max: 0}
-	in[f.Blocks[0]] = st{0, 0, true}
+	in[start] = st{0, 0, true}
 	for iter := 0; iter < 4*len(f.Blocks)+8; iter++ {
 		changed := false
 		for _, b := range f.Blocks {
-			if b != f.Blocks[0] {
+			if b != start {
 				s := st{}
 				for _, p := range b.Preds {
-					if skipEdge != nil && skipEdge(p, b) {
+					if o.SkipEdge != nil && o.SkipEdge(p, b) {
 						continue
 					}
-					o := out[p]
-					if !o.reach {
+					if o.ExitEdge != nil && o.ExitEdge(p, b) {
+						continue
+					}
+					po := out[p]
+					if !po.reach {
 						continue
 					}
 					if !s.reach {
-						s = o
+						s = po
 					} else {
-						if o.lo < s.lo {
-							s.lo = o.lo
+						if po.lo < s.lo {
+							s.lo = po.lo
 						}
-						if o.hi > s.hi {
-							s.hi = o.hi
+						if po.hi > s.hi {
+							s.hi = po.hi
 						}
 					}
 				}
@@ -603,7 +623,7 @@ func CountPaths(f *ssa.Function, count func(in ssa.Instruction) (lo, hi int), sk
 				continue
 			}
 			for _, ins := range b.Instrs {
-				lo, hi := count(ins)
+				lo, hi := o.Count(ins)
 				s.lo += lo
 				s.hi += hi
 				if s.hi > inf/2 {
@@ -612,7 +632,7 @@ func CountPaths(f *ssa.Function, count func(in ssa.Instruction) (lo, hi int), sk
 			}
 			if s != out[b] {
 				// widening: a growing hi inside a loop is unbounded
-				if o := out[b]; o.reach && s.hi > o.hi && iter > len(f.Blocks)+2 {
+				if po := out[b]; po.reach && s.hi > po.hi && iter > len(f.Blocks)+2 {
 					s.hi = inf
 				}
 				out[b] = s
@@ -623,23 +643,33 @@ func CountPaths(f *ssa.Function, count func(in ssa.Instruction) (lo, hi int), sk
 			break
 		}
 	}
+	note := func(s st, at ssa.Instruction) {
+		if s.lo < res.Min {
+			res.Min, res.MinExit = s.lo, at
+		}
+		if s.hi > res.Max {
+			res.Max, res.MaxExit = s.hi, at
+		}
+	}
 	for _, b := range f.Blocks {
-		if len(b.Instrs) == 0 {
+		if len(b.Instrs) == 0 || !out[b].reach {
 			continue
 		}
-		ret, ok := b.Instrs[len(b.Instrs)-1].(*ssa.Return)
-		if !ok || !out[b].reach {
-			continue
+		last := b.Instrs[len(b.Instrs)-1]
+		if ret, ok := last.(*ssa.Return); ok && !o.NoReturn {
+			if o.ExitOK == nil || !o.ExitOK(ret) {
+				note(out[b], ret)
+			}
 		}
-		if exitOK != nil && exitOK(ret) {
-			continue
-		}
-		o := out[b]
-		if o.lo < res.Min {
-			res.Min, res.MinExit = o.lo, ret
-		}
-		if o.hi > res.Max {
-			res.Max, res.MaxExit = o.hi, ret
+		if o.ExitEdge != nil {
+			for _, sc := range b.Succs {
+				if o.SkipEdge != nil && o.SkipEdge(b, sc) {
+					continue
+				}
+				if o.ExitEdge(b, sc) {
+					note(out[b], last)
+				}
+			}
 		}
 	}
 	if res.Max >= inf/2 {
